@@ -9,11 +9,17 @@ F36_KNOWN = True
 
 
 SERVICE_CLAUSES_C07 = ["C07_DepositEscrow", "C07_RequestEscrow", "C07_OwnerTally", "C07_Charge", "C07_Answer",
-                       "C07_Expire", "C07_Withdraw", "C07_Frame", "C07_ScaleExact", "Rejected_NoEffect"]
+                       "C07_Expire", "C07_Withdraw", "C07_Frame", "C07_ScaleExact", "Rejected_NoEffect",
+                       # history-based twins (audit): request records never change after issue; withdrawals arrive
+                       # at the address the owner last SET
+                       "C07_RequestRecords", "C07_WithdrawTo"]
 SERVICE_CLAUSES_C08 = ["C08_OneOutcome", "C08_RespondGuards", "C08_OneShot", "C08_CallFresh", "C08_Schedule", "C08_Authority",
-                       "C08_Callback", "C08_Funds"]
+                       "C08_Callback", "C08_Funds",
+                       # history-based twins (audit): antecedents from accepted events / heights, not from the module's
+                       # active markers, queues, state flags or stored consumer
+                       "C08_OneOutcomeH", "C08_AuthorityH", "C08_ScheduleH", "C08_BatchDue"]
 # clause names of ServiceTrace.tla that belong to C13 (aggregated by the lead)
-C13_CLAUSES_SERVICE = ["C13_QueueSound", "C13_QueueComplete", "C13_OnceOnTime", "C13_NoHalt"]
+C13_CLAUSES_SERVICE = ["C13_QueueSound", "C13_QueueComplete", "C13_OnceOnTime", "C13_NoHalt", "C13_QueueH", "C08_BatchDue"]
 
 # driver configuration matching the constants of MC_Service.cfg / GEN_Service.cfg
 SERVICE_GEN_CFG = "users=4,init=30,taxnum=1,taxden=2,slashnum=1,slashden=2,maxtimeout=3,minmult=1,mindep=2,wait=2"
